@@ -110,8 +110,10 @@ def resubmit_jobs(output, failed, missing, successful, submission_groups_file, v
 
     jobs_to_resubmit = _get_jobs_to_resubmit(cluster, output, failed, missing, successful)
     updated_blocking_jobs_by_name = _update_with_blocking_jobs(jobs_to_resubmit, output)
-    _reset_results(output, jobs_to_resubmit)
+    # Reset the job states before pruning the results so that a job is never reported as done
+    # without a result.
     cluster.prepare_for_resubmission(jobs_to_resubmit, updated_blocking_jobs_by_name)
+    _reset_results(output, jobs_to_resubmit)
     events_dir = Path(output) / EVENTS_DIR
     # The directory only exists if reports were generated.
     for path in list(events_dir.iterdir()) if events_dir.exists() else []:
